@@ -89,20 +89,20 @@ package core
 //@ func (pa *path) consumeOnHoldRequests
 //@   property C18
 //@   safety -all
-//@   requires [limit-holds] pa.conf != nil && (pa.conf.MaxReaders == 0 || len(pa.readers) <= pa.conf.MaxReaders)
+//@   domain pa.conf != nil && (pa.conf.MaxReaders == 0 || len(pa.readers) <= pa.conf.MaxReaders)
 //@   loop 2 invariant pa.conf == old(pa.conf) && pa.conf.MaxReaders == old(pa.conf.MaxReaders) && pa.readers == old(pa.readers) && (pa.conf.MaxReaders == 0 || len(pa.readers) <= pa.conf.MaxReaders)
 //@   ensures [limit-preserved] pa.conf == old(pa.conf) && (pa.conf.MaxReaders == 0 || len(pa.readers) <= pa.conf.MaxReaders)
 
 //@ func (pa *path) doAddReader
 //@   property C18
 //@   safety -all
-//@   requires [limit-holds] pa.conf != nil && (pa.conf.MaxReaders == 0 || len(pa.readers) <= pa.conf.MaxReaders)
+//@   domain pa.conf != nil && (pa.conf.MaxReaders == 0 || len(pa.readers) <= pa.conf.MaxReaders)
 //@   ensures [limit-preserved] pa.conf.MaxReaders == 0 || len(pa.readers) <= pa.conf.MaxReaders
 
 //@ func (pa *path) doRemoveReader
 //@   property C18
 //@   safety -all
-//@   requires [limit-holds] pa.conf != nil && (pa.conf.MaxReaders == 0 || len(pa.readers) <= pa.conf.MaxReaders)
+//@   domain pa.conf != nil && (pa.conf.MaxReaders == 0 || len(pa.readers) <= pa.conf.MaxReaders)
 //@   ensures [limit-preserved] pa.conf.MaxReaders == 0 || len(pa.readers) <= pa.conf.MaxReaders
 //@   ensures [reader-detached] !has(pa.readers, req.Author)
 
@@ -112,3 +112,31 @@ package core
 //@   loop 1 invariant forall(r, defs.Reader, visited(pa.readers, r) ==> !has(pa.readers, r))
 //@   assert-call onUnavailableHook: forall(r, defs.Reader, !has(pa.readers, r))
 //@   ensures [unavailable-hook-fires-after-all-readers-are-detached] called(onUnavailableHook) == 1
+
+// C16: one publisher per path. A second publisher is rejected while one is attached unless overridePublisher is
+// set; in that case the previous publisher is closed and completely removed (which, on always-available paths,
+// re-points the stream to the offline sub stream and thereby cuts off everything it still writes) BEFORE the new
+// publisher's sub stream is attached.
+
+//@ func (pa *path) doAddPublisher
+//@   property C16
+//@   safety -all
+//@   assert-call Publisher.Close: old(pa.source) != nil && old(pa.conf.OverridePublisher) && old(pa.conf.Source) == "publisher" && called(executeRemovePublisher) == 0
+//@   assert-call executeRemovePublisher: called(Publisher.Close) == 1
+//@   assert-call SubStream.Initialize: old(pa.conf.Source) == "publisher" && (old(pa.source) != nil ==> old(pa.conf.OverridePublisher) && called(Publisher.Close) == 1 && called(executeRemovePublisher) == 1)
+//@   ensures [rejected-while-another-publishes] old(pa.source) != nil && !old(pa.conf.OverridePublisher) ==> pa.source == old(pa.source) && called(Publisher.Close) == 0 && called(SubStream.Initialize) == 0
+//@   ensures [rejected-when-source-is-not-publisher] old(pa.conf.Source) != "publisher" ==> pa.source == old(pa.source) && called(SubStream.Initialize) == 0
+
+//@ func (pa *path) doRemovePublisher
+//@   property C16
+//@   safety -all
+//@   assert-call executeRemovePublisher: old(pa.source) == req.Author
+//@   ensures [only-the-attached-publisher-is-removed] old(pa.source) != req.Author ==> pa.source == old(pa.source) && called(executeRemovePublisher) == 0
+//@   ensures [attached-publisher-is-removed] old(pa.source) == req.Author ==> called(executeRemovePublisher) == 1
+
+//@ func (pa *path) executeRemovePublisher
+//@   property C16
+//@   safety -all
+//@   assert-call setNotAvailable: !old(pa.conf.AlwaysAvailable)
+//@   assert-call StartOfflineSubStream: old(pa.conf.AlwaysAvailable)
+//@   ensures [stream-taken-away-from-the-publisher] called(setNotAvailable) + called(StartOfflineSubStream) == 1
